@@ -209,10 +209,14 @@ func (fr *Frame) resultEnv(results []Value, dummy bool) map[string]bound {
 		}
 		b := bound{v, rt.At(i).Type()}
 		env[fmt.Sprintf("result%d", i)] = b
-		if i == 0 {
+		// `results a b` in the contract names the results (needed when a parameter is called result)
+		named := fr.contract != nil && len(fr.contract.Results) > 0
+		if i == 0 && !named {
 			env["result"] = b
 		}
-		if n := rt.At(i).Name(); n != "" && n != "_" {
+		if named && i < len(fr.contract.Results) {
+			env[fr.contract.Results[i]] = b
+		} else if n := rt.At(i).Name(); n != "" && n != "_" {
 			env[n] = b
 		}
 	}
